@@ -88,7 +88,7 @@ pub fn six_shift<S: Src>(s: &mut S) {
     use ckc_rs::cards::HandRanker;
     let (cards, w6) = draw_cards::<S, 6>(s);
     assume!(s, all_distinct(&w6));
-    let g = GhostV::install(cards, 6);
+    let g = GhostV::install_any(cards, 6);
     let h = Six::from(w6);
     let mut shifted = [0u32; 7];
     let mut i = 0;
@@ -110,7 +110,7 @@ pub fn seven_shift<S: Src>(s: &mut S) {
     use ckc_rs::cards::HandRanker;
     let (cards, w7) = draw_cards::<S, 7>(s);
     assume!(s, all_distinct(&w7));
-    let g = GhostV::install(cards, 7);
+    let g = GhostV::install_any(cards, 7);
     let h = Seven::from(w7);
     let mut shifted = [0u32; 7];
     let mut i = 0;
